@@ -418,6 +418,94 @@ def life_monitor(obs, answers):
     return bad
 
 
+
+# -- (E) the scheduler's raptor backlog -----------------------------------------------------------
+class FakePutter(object):
+    log = None
+    def __init__(self, queue, addr): self.name = addr
+    def put(self, x):
+        for t in (x if isinstance(x, list) else [x]):
+            FakePutter.log.append([int(self.name), int(t['uid'].split('.')[1]) if isinstance(t['uid'], str) else t['uid']])
+
+
+def run_fwd(rp, ops):
+    import radical.pilot.agent.scheduler.base as sb
+    s = schedlib.make_sched(rp, {'cpn': 4, 'gpn': 0, 'lfs': 0, 'mem': 0, 'scattered': False},
+                            [{'index': 0, 'cores': [0, 0, 0, 0], 'gpus': [], 'lfs': 0, 'mem': 0}])
+    s._raptor_lock, s._raptor_queues, s._raptor_tasks = mt.Lock(), {}, {}
+    s._scheduler_process = True
+    failed = []
+    s._fail_task = lambda task, e, detail: failed.append(task['uid'])
+    FakePutter.log = []
+    saved = sb.ru.zmq.Putter
+    sb.ru.zmq.Putter = FakePutter
+    try:
+        for o in ops:
+            if o[0] == 'incoming':
+                ts = []
+                for key, uids in o[1]:
+                    for u in uids:
+                        t = schedlib.req_to_task({'uid': u, 'ranks': 1, 'cpr': 1, 'gpr': 0, 'lfs': 0, 'mem': 0, 'rpn': 0, 'prio': 0})
+                        t['description']['mode'] = 'task.function'
+                        t['description']['raptor_id'] = '*' if key is None else 'master.%d' % key
+                        ts.append(t)
+                # one message per group: the groups arrive in this order within one drain
+                for key, uids in o[1]:
+                    s._queue_sched.put(([t for t in ts if t['uid'] in uids], s._SCHEDULE))
+                s._schedule_incoming()
+            elif o[0] == 'register':
+                s.control_cb('control_pubsub', {'cmd': 'register_raptor_queue', 'arg': {'name': 'master.%d' % o[1], 'queue': 'q', 'addr': str(o[1])}})
+            elif o[0] == 'unregister':
+                s.control_cb('control_pubsub', {'cmd': 'unregister_raptor_queue', 'arg': {'name': 'master.%d' % o[1]}})
+            else:
+                s.control_cb('control_pubsub', {'cmd': 'cancel_tasks', 'arg': {'uids': list(o[1])}})
+    finally:
+        sb.ru.zmq.Putter = saved
+    def key(k): return None if k == '*' else int(k.split('.')[1])
+    return {'queues': [int(k.split('.')[1]) for k in s._raptor_queues],
+            'backlog': [[key(k), [t['uid'] for t in v]] for k, v in s._raptor_tasks.items()],
+            'delivered': FakePutter.log, 'failed': failed,
+            'canceled': [e[0] for e in s.events if e[1] == 'CANCELED']}
+
+
+def gen_fwd(rng):
+    ops, uid = [], 0
+    masters = [1, 2, 3]
+    for _ in range(rng.randint(2, 9)):
+        r = rng.random()
+        if r < 0.5:
+            groups, keys = [], []
+            for _ in range(rng.choice([1, 1, 2, 3])):
+                k = rng.choice([None, None] + masters)
+                if k in keys: continue
+                keys.append(k)
+                n = rng.choice([1, 1, 2, 3]); groups.append([k, list(range(uid, uid + n))]); uid += n
+            ops.append(['incoming', groups])
+        elif r < 0.75: ops.append(['register', rng.choice(masters)])
+        elif r < 0.9:  ops.append(['unregister', rng.choice(masters)])
+        else:          ops.append(['cancel', rng.sample(range(max(1, uid)), min(max(1, uid), rng.randint(1, 2)))])
+    return ops, uid
+
+
+def fwd_monitor(ops, r, n):
+    bad = []
+    seen = {}
+    for q, t in r['delivered']:
+        seen[t] = seen.get(t, 0) + 1
+    waiting = [t for k, ts in r['backlog'] for t in ts]
+    for t in range(n):
+        places = seen.get(t, 0) + (t in r['failed']) + (t in r['canceled']) + (t in waiting)
+        if places != 1:
+            bad.append(('scheduler:raptor-request-not-accounted-once', 'request %d: delivered %d times, failed %s, canceled %s, waiting %s'
+                        % (t, seen.get(t, 0), t in r['failed'], t in r['canceled'], t in waiting)))
+    for k, ts in r['backlog']:
+        if ts and ((k is None and r['queues']) or (k is not None and k in r['queues'])):
+            bad.append(('scheduler:raptor-request-waits-although-master-registered',
+                        'requests %s wait for %s while masters %s are registered: they never reach a worker'
+                        % (ts, '*' if k is None else 'master.%d' % k, r['queues'])))
+    return bad
+
+
 # ----------------------------------------------------------------------------------------------
 def run(ctx):
     rp  = rpload.load()
@@ -467,6 +555,16 @@ def run(ctx):
             if timpl[-1] != want:
                 ctx.fail('master:target-state-differs', 'exit code %r -> %s' % (code if present else 'absent', timpl[-1]), {'kind': 'target', 'op': tops[-1]})
     common.compare(ctx, 'raptor', tops, timpl, what='real Master._result_cb exit code -> target state')
+    # (E)
+    fops, fimpl = [], []
+    for ops_, n_ in [(list(o), n) for o, n in FWD_CORPUS] + [gen_fwd(rng) for _ in range(ctx.n(200, 6000))]:
+        r = run_fwd(rp, ops_)
+        fops.append({'op': 'fwd', 'ops': ops_}); fimpl.append(r)
+        ctx.case(fops[-1], nontrivial=bool(r['delivered']))
+        for sig, what in fwd_monitor(ops_, r, n_):
+            ctx.fail(sig, what, {'kind': 'fwd', 'ops': ops_, 'n': n_})
+    common.compare(ctx, 'raptor', fops, fimpl, canon=lambda x: {k: (v if k != 'backlog' else [e for e in v if e[1]]) for k, v in x.items()} if isinstance(x, dict) else x,
+                   what='real scheduler raptor backlog: _schedule_incoming forwarding, register/unregister_raptor_queue, cancel')
     # (C)
     dops, dimpl = [], []
     restore_c = None
@@ -527,6 +625,11 @@ def run(ctx):
     ctx.trusted += ['harness/props/c20.py (stand-ins for multiprocessing, payload generator), harness/coop.py, harness/schedlib.py']
 
 
+FWD_CORPUS = [
+    ([['incoming', [[1, [0]], [None, [1, 2]]]], ['register', 1]], 3),       # named and '*' requests wait when the master registers
+    ([['register', 1], ['register', 2], ['incoming', [[None, [0, 1, 2]]]], ['unregister', 1], ['incoming', [[1, [3]]]], ['unregister', 1]], 4),
+]
+
 LIFE_CORPUS = [
     # the rank process has queued its result and released the lock but not yet exited when the join times out
     ['wp', 'wp', 'timeout', 'wp', 'dp', 'watcher', 'watcher', 'wp', 'dp', 'watcher'],
@@ -552,6 +655,8 @@ def replay(ctx, data):
             if (r['ret'] == 0) != (pl['raises'] is None): ok = False
             proc = {'env': r['env'], 'cenv': r['cenv']}
         return ok
+    if i['kind'] == 'fwd':
+        r = run_fwd(rp, i['ops']); bad = fwd_monitor(i['ops'], r, i['n']); print(r, bad); return not bad
     if i['kind'] == 'alloc':
         r, live = run_alloc(rp, i['op']['ncores'], i['op']['ngpus'], i['op']['ops']); print(r); return False
     return False
